@@ -33,9 +33,10 @@ func (p *c02) ID() string { return "C02" }
 func c02Rows() []any {
 	return []any{
 		map[string]any{"id": 0.0, "a": -3.0, "d": 2.0, "o": map[string]any{"p": map[string]any{"q": 7.0}}, "s": "x", "c": true},
-		map[string]any{"id": 1.0, "a": 1.5, "d": 0.5, "o": map[string]any{"p": map[string]any{"q": 1.0}}, "s": "y", "c": false},
+		// a key that is spelled like a nested path next to the nested object itself: the path wins
+		map[string]any{"id": 1.0, "a": 1.5, "d": 0.5, "o": map[string]any{"p": map[string]any{"q": 1.0}}, "s": "y", "c": false, "o.p.q": 99.0, "o.p": "flat"},
 		map[string]any{"id": 2.0, "a": 0.0, "d": 0.0, "o": map[string]any{"p": map[string]any{"q": 0.0}}, "s": "", "c": true},
-		map[string]any{"id": 3.0, "a": 6.0, "o": map[string]any{"p": map[string]any{}}, "s": "x", "c": false},
+		map[string]any{"id": 3.0, "a": 6.0, "o": map[string]any{"p": map[string]any{}}, "s": "x", "c": false, "o.p.q": 98.0},
 		map[string]any{"id": 4.0, "a": 5.0, "d": nil, "o": map[string]any{"p": map[string]any{"q": 2.0}}, "s": "z", "c": true},
 		map[string]any{"id": 5.0, "a": 12.0, "d": 10.0, "s": "w", "c": false},
 	}
